@@ -10,6 +10,11 @@ use std::panic::{catch_unwind, AssertUnwindSafe};
 use std::time::Instant;
 
 pub const VERIF_DIR: &str = "/verif";
+
+/// where evidence and replay files are written: /verif, or $VERIF_OUT for scratch (mutant) runs
+pub fn out_dir() -> String {
+    std::env::var("VERIF_OUT").unwrap_or_else(|_| VERIF_DIR.to_string())
+}
 pub const DEFAULT_SEED: u64 = 20261004;
 /// seed of the current run (enumerated parts derive their per-index entropy from it)
 pub static SEED: std::sync::atomic::AtomicU64 = std::sync::atomic::AtomicU64::new(DEFAULT_SEED);
@@ -295,6 +300,11 @@ pub trait Check: Sync {
     fn assumptions(&self) -> Vec<String>;
     /// classes that must be non-empty in a run of the given tier (generator health)
     fn required_classes(&self, _tier: Tier) -> Vec<&'static str> {
+        Vec::new()
+    }
+    /// plain, generator-independent regression cases (confirmed historic failures with concrete
+    /// inputs written out in code); replayed first by every run
+    fn regressions(&self) -> Vec<(&'static str, fn() -> Result<(), Fail>)> {
         Vec::new()
     }
     /// extra keys for the coverage object (constants used, ...)
@@ -666,7 +676,7 @@ pub fn replay(check: &dyn Check, file: &Value) -> Result<(), Fail> {
 }
 
 pub fn write_replay(id: &str, v: &Value) -> String {
-    let dir = format!("{VERIF_DIR}/replays");
+    let dir = format!("{}/replays", out_dir());
     let _ = std::fs::create_dir_all(&dir);
     let text = serde_json::to_string_pretty(v).unwrap();
     let mut h = std::collections::hash_map::DefaultHasher::new();
@@ -716,7 +726,7 @@ pub fn write_evidence(check: &dyn Check, tier: Tier, seed: u64, out: &RunOutcome
         "wall_s": out.wall_s,
         "violations": if out.violation.is_some() { 1 } else { 0 },
     });
-    let dir = format!("{VERIF_DIR}/evidence");
+    let dir = format!("{}/evidence", out_dir());
     let _ = std::fs::create_dir_all(&dir);
     std::fs::write(format!("{dir}/{}.json", check.id()), serde_json::to_string_pretty(&ev).unwrap())
         .expect("cannot write evidence");
